@@ -3,3 +3,4 @@ pub mod gen;
 pub mod render;
 pub mod rng;
 pub mod val;
+pub mod e1;
